@@ -7134,3 +7134,345 @@ func neverNilReceived(g *ssa.Function) edgeFilter {
 		return i == 0
 	}
 }
+
+// ---------------------------------------------------------------------------------------------
+// R20.70 — no mutex is released that is not held
+
+func init() {
+	register(ruleDef{ID: "R20.70", Prop: "C20", Tier: "quick", Floor: 1,
+		Title: "no mutex is released that is not held: an Unlock()/RUnlock() on a mutex reached through a field, a global or a captured variable — called directly, registered with defer, or made by a deferred function literal — is not reached along a path on which the function has not taken that mutex in the matching mode since entry or since its last release (releasing an unlocked sync mutex is a fatal error of the runtime that no recover stops); paths that take contradictory branches on one condition are not considered; a function that releases a lock its caller took is listed as an exception with that caller",
+		Fn:    ruleNoUnlockOfUnheld})
+}
+
+// mutexIdent names a mutex by the value its access path starts from and the path of fields/derefs to it;
+// captured variables are followed to the enclosing function's cell.  Sharded mutexes (indexed) are not named.
+func mutexIdent(v ssa.Value) (ssa.Value, string) {
+	path := ""
+	for i := 0; i < 30; i++ {
+		switch x := v.(type) {
+		case *ssa.FieldAddr:
+			n, _, _ := fieldName(x)
+			path = "." + n + path
+			v = x.X
+		case *ssa.Field:
+			if st, ok := x.X.Type().Underlying().(*types.Struct); ok {
+				path = "." + st.Field(x.Field).Name() + path
+			}
+			v = x.X
+		case *ssa.UnOp:
+			if x.Op != token.MUL {
+				return v, path
+			}
+			path = "*" + path
+			v = x.X
+		case *ssa.IndexAddr, *ssa.Index, *ssa.Lookup:
+			return nil, ""
+		case *ssa.FreeVar:
+			r := captureRoot(x)
+			if r == ssa.Value(x) {
+				return v, path
+			}
+			v = r
+		case *ssa.ChangeType:
+			v = x.X
+		default:
+			return v, path
+		}
+	}
+	return v, path
+}
+
+type syncOp struct {
+	in      ssa.Instruction
+	root    ssa.Value
+	path    string
+	acquire bool
+	write   bool
+	defer_  bool
+}
+
+func syncOpsOf(f *ssa.Function) []syncOp {
+	var out []syncOp
+	for _, b := range f.Blocks {
+		for _, in := range b.Instrs {
+			var cc *ssa.CallCommon
+			isDefer := false
+			switch x := in.(type) {
+			case *ssa.Call:
+				cc = &x.Call
+			case *ssa.Defer:
+				cc, isDefer = &x.Call, true
+			default:
+				continue
+			}
+			callee := cc.StaticCallee()
+			if callee == nil || len(cc.Args) == 0 || !strings.HasPrefix(callee.String(), "(*sync.") {
+				continue
+			}
+			var op syncOp
+			switch callee.Name() {
+			case "Lock":
+				op.acquire, op.write = true, true
+			case "RLock":
+				op.acquire = true
+			case "Unlock":
+				op.write = true
+			case "RUnlock":
+			default:
+				continue
+			}
+			if !strings.Contains(callee.String(), "Mutex") {
+				continue
+			}
+			op.root, op.path = mutexIdent(cc.Args[0])
+			if op.root == nil {
+				continue
+			}
+			op.in, op.defer_ = in, isDefer
+			out = append(out, op)
+		}
+	}
+	return out
+}
+
+// consistentPath is findPath with one refinement: conditions tested by more than one If of the function are
+// given one truth value along the path (re-set when the path re-enters the block that computes the condition).
+func consistentPath(f *ssa.Function, from ssa.Instruction, barrier, target func(ssa.Instruction) bool) []ssa.Instruction {
+	if len(f.Blocks) == 0 {
+		return nil
+	}
+	condOf := func(b *ssa.BasicBlock) (ssa.Value, bool) {
+		if len(b.Instrs) == 0 {
+			return nil, false
+		}
+		ifi, ok := b.Instrs[len(b.Instrs)-1].(*ssa.If)
+		if !ok {
+			return nil, false
+		}
+		c, neg := ifi.Cond, false
+		for {
+			u, ok := c.(*ssa.UnOp)
+			if !ok || u.Op != token.NOT {
+				break
+			}
+			c, neg = u.X, !neg
+		}
+		return c, neg
+	}
+	uses := map[ssa.Value]int{}
+	for _, b := range f.Blocks {
+		if c, _ := condOf(b); c != nil {
+			uses[c]++
+		}
+	}
+	type state struct {
+		b     *ssa.BasicBlock
+		idx   int
+		asg   map[ssa.Value]bool
+		trail []ssa.Instruction
+	}
+	sig := func(b *ssa.BasicBlock, asg map[ssa.Value]bool) string {
+		var parts []string
+		for c, v := range asg {
+			parts = append(parts, fmt.Sprintf("%s=%t", c.Name(), v))
+		}
+		sort.Strings(parts)
+		return fmt.Sprintf("%d|%s", b.Index, strings.Join(parts, ","))
+	}
+	startB, startI := f.Blocks[0], 0
+	if from != nil {
+		startB, startI = from.Block(), instrIndex(from)+1
+	}
+	visited := map[string]bool{}
+	stack := []state{{startB, startI, map[ssa.Value]bool{}, nil}}
+	steps := 0
+	for len(stack) > 0 {
+		st := stack[len(stack)-1]
+		stack = stack[:len(stack)-1]
+		steps++
+		if steps > 200000 {
+			return nil
+		}
+		blocked := false
+		for i := st.idx; i < len(st.b.Instrs); i++ {
+			in := st.b.Instrs[i]
+			if barrier != nil && barrier(in) {
+				blocked = true
+				break
+			}
+			if target(in) {
+				return append(append([]ssa.Instruction{}, st.trail...), in)
+			}
+		}
+		if blocked {
+			continue
+		}
+		c, neg := condOf(st.b)
+		for i, s := range st.b.Succs {
+			asg := st.asg
+			if c != nil && uses[c] >= 2 {
+				want := (i == 0) != neg
+				if have, ok := asg[c]; ok {
+					if have != want {
+						continue
+					}
+				} else {
+					asg = map[ssa.Value]bool{}
+					for k, v := range st.asg {
+						asg[k] = v
+					}
+					asg[c] = want
+				}
+			}
+			// entering the block that computes a condition forgets what was assumed about it
+			drop := false
+			for k := range asg {
+				if in, ok := k.(ssa.Instruction); ok && in.Block() == s {
+					drop = true
+				}
+			}
+			if drop {
+				n := map[ssa.Value]bool{}
+				for k, v := range asg {
+					if in, ok := k.(ssa.Instruction); ok && in.Block() == s {
+						continue
+					}
+					n[k] = v
+				}
+				asg = n
+			}
+			k := sig(s, asg)
+			if visited[k] {
+				continue
+			}
+			visited[k] = true
+			trail := st.trail
+			if len(st.b.Instrs) > 0 {
+				trail = append(append([]ssa.Instruction{}, st.trail...), st.b.Instrs[len(st.b.Instrs)-1])
+			}
+			stack = append(stack, state{s, 0, asg, trail})
+		}
+	}
+	return nil
+}
+
+func ruleNoUnlockOfUnheld(r *Run) {
+	w := r.W
+	n, skipped := 0, 0
+	isReturn := func(x ssa.Instruction) bool { _, ok := x.(*ssa.Return); return ok }
+	for _, f := range w.RepoFuncs {
+		if len(f.Blocks) == 0 || isTestFunc(w, f) {
+			continue
+		}
+		ops := syncOpsOf(f)
+		// releases made by function literals this function defers count as deferred releases of this function
+		type rel struct {
+			at      ssa.Instruction // the release, or the defer that registers it
+			op      syncOp
+			deferAt bool
+		}
+		var rels []rel
+		for _, op := range ops {
+			if op.acquire {
+				continue
+			}
+			if f.Parent() != nil && op.root.Parent() != f {
+				// a function literal releasing a captured mutex: decided in the function that defers it
+				onlyDeferred := true
+				par := f.Parent()
+				used := false
+				for _, b := range par.Blocks {
+					for _, in := range b.Instrs {
+						if mc, ok := in.(*ssa.MakeClosure); ok && mc.Fn == ssa.Value(f) {
+							for _, ref := range *mc.Referrers() {
+								used = true
+								if _, isDefer := ref.(*ssa.Defer); !isDefer {
+									onlyDeferred = false
+								}
+							}
+						}
+					}
+				}
+				if !(used && onlyDeferred) {
+					skipped++
+				}
+				continue
+			}
+			rels = append(rels, rel{op.in, op, op.defer_})
+		}
+		for _, a := range f.AnonFuncs {
+			for _, b := range f.Blocks {
+				for _, in := range b.Instrs {
+					d, ok := in.(*ssa.Defer)
+					if !ok {
+						continue
+					}
+					mc, ok := d.Call.Value.(*ssa.MakeClosure)
+					if !ok || mc.Fn != ssa.Value(a) {
+						continue
+					}
+					for _, op := range syncOpsOf(a) {
+						if !op.acquire && !op.defer_ && op.root.Parent() == f {
+							rels = append(rels, rel{in, op, true})
+						}
+					}
+				}
+			}
+		}
+		k := 0
+		for _, rl := range rels {
+			k++
+			n++
+			same := func(o syncOp) bool { return o.root == rl.op.root && o.path == rl.op.path }
+			isAcq := func(x ssa.Instruction) bool {
+				for _, o := range ops {
+					if o.in == x && o.acquire && !o.defer_ && same(o) && o.write == rl.op.write {
+						return true
+					}
+				}
+				return false
+			}
+			var pth []ssa.Instruction
+			what := ""
+			if rl.deferAt {
+				// registered before any acquisition, and no acquisition between the registration and a return
+				p1 := consistentPath(f, nil, isAcq, func(x ssa.Instruction) bool { return x == rl.at })
+				if p1 != nil {
+					if p2 := consistentPath(f, rl.at, isAcq, isReturn); p2 != nil {
+						pth, what = append(p1, p2...), "from the entry through the defer to a return"
+					}
+				}
+			} else {
+				pth = consistentPath(f, nil, isAcq, func(x ssa.Instruction) bool { return x == rl.at })
+				what = "from the entry"
+				if pth == nil {
+					for _, o := range ops {
+						if o.acquire || o.defer_ || !same(o) {
+							continue
+						}
+						if p := consistentPath(f, o.in, isAcq, func(x ssa.Instruction) bool { return x == rl.at }); p != nil {
+							pth, what = p, "from the release at "+w.pos(o.in.Pos())
+							break
+						}
+					}
+				}
+			}
+			name := "Unlock"
+			if !rl.op.write {
+				name = "RUnlock"
+			}
+			rootName := rl.op.root.Name()
+			if al, ok := rl.op.root.(*ssa.Alloc); ok && al.Comment != "" {
+				rootName = al.Comment
+			}
+			construct := fmt.Sprintf("%s:%s#%d:%s%s:held", fname(f), name, k, rootName, rl.op.path)
+			if reason, exc := r.exceptionFor("R20.70", construct); exc {
+				r.check(true, construct, "exception: "+reason, "", w.pos(rl.at.Pos()))
+				continue
+			}
+			r.check(pth == nil, construct, "the mutex was taken in the matching mode on every path to the release",
+				"a path ("+what+") reaches this "+name+"() without the function having taken the mutex in the matching mode: releasing a sync mutex that is not locked is a fatal runtime error — the process ends, and no recover middleware stops it", w.pos(rl.at.Pos()), w.renderPath(pth)...)
+		}
+	}
+	r.check(n >= 100, "repo:releases", fmt.Sprintf("%d decided, %d in function literals not decided", n, skipped), "too few: rule needs review", "-")
+}
